@@ -631,6 +631,7 @@ impl World {
         let _ = take_trace();
         let _ = take_reply_gas(); // whatever other instances of this thread left behind
         let _ = take_env_tx();
+        let _ = take_extras();
         rep.evaluations += 1;
         match op {
             Top::StoreCode { kind, creator, id } => {
@@ -776,7 +777,7 @@ impl World {
                         Ok(Err(_)) => "err".to_string(),
                         Err(_) => "panic".to_string(),
                     };
-                    t.push(format!("{} {} trace={:?} reply_gas={:?} env_tx={:?}", kind, shown, real_trace, take_reply_gas(), take_env_tx()));
+                    t.push(format!("{} {} trace={:?} reply_gas={:?} env_tx={:?} extras={:?}", kind, shown, real_trace, take_reply_gas(), take_env_tx(), take_extras()));
                 }
                 let got = match got {
                     Ok(g) => g,
